@@ -1126,6 +1126,16 @@ class FnRun(FnAnalysis):
                             rel_.add(("len_ge", s_i + 1, j_ + 1))
                 cur_rel = self.prog.arg_rel_obs.get(name)
                 self.prog.arg_rel_obs[name] = rel_ if cur_rel is None else (cur_rel & rel_)
+                # lengths of byte buffers stored in fields behind a reference argument (`self.stream` has >= 4 bytes)
+                fl_ = {}
+                for i_, a_ in enumerate(args):
+                    if a_ and a_[0] == "ref":
+                        pre_ = "F:" + a_[1]
+                        for sid_, v_ in st.sl.items():
+                            if sid_.startswith(pre_ + ".") and v_[0] > 0:
+                                fl_[(i_ + 1, sid_[len(pre_):])] = v_[0]
+                cur_fl = self.prog.arg_field_obs.get(name)
+                self.prog.arg_field_obs[name] = fl_ if cur_fl is None else {k_: min(v_, cur_fl[k_]) for k_, v_ in fl_.items() if k_ in cur_fl}
             if callee_fn is not None and callee_fn is not self:
                 # constant length requirements of the helper
                 for (pi, k) in sorted(self.prog.requires.get(name, {}).items()):
@@ -1138,8 +1148,6 @@ class FnRun(FnAnalysis):
             # xlsb record payload: the buffer holds at least the returned number of bytes
             res = self.default_result(st, tag, dcls, dty, name, args)
             ens = self.prog.ensures.get(name) if callee_fn is not None and callee_fn is not self else None
-            if ens and res is None:
-                res = self.guard_value(st, ens, args)
             if last in ("fill_buffer", "next_skip_blocks") and _c(name, "xlsb::RecordIter"):
                 bufv = args[-1]
                 at = self.fresh(tag + "n", "u64", True, "src28")
@@ -1162,6 +1170,11 @@ class FnRun(FnAnalysis):
                 if bufv and bufv[0] == "ref":
                     sid = self.slice_sid_of_loc(st, bufv[1], "adt:alloc::vec::Vec<u8>")
                     st.sl[sid] = (0, frozenset([Lin.atom(at)]), None)
+            if ens and (res is None or dcls == "bool"):
+                # what the callee guarantees on its Ok / true result, stated about the caller's state *after* the call
+                g = self.guard_value(st, ens, args, as_bool=(dcls == "bool"))
+                if g is not None:
+                    res = g
         self.assign(st, dest, res)
 
     def default_result(self, st, tag, dcls, dty, name, args):
@@ -1499,6 +1512,8 @@ class FnRun(FnAnalysis):
                 self.atom_meta[a] = {"lo": lo, "hi": hi, "taint": True, "desc": "param%d" % i}
                 st.val["_%d" % i] = self.int_of_atom(a)
         if not os.environ.get("C06_NO_PARAMRANGE"):
+            for (i_, suffix_), minc_ in sorted(self.prog.param_fields.get(self.name, {}).items()):
+                st.sl["F:_%d*%s" % (i_, suffix_)] = (minc_, frozenset(), None)
             for f in sorted(self.prog.param_rel.get(self.name, ())):
                 vi = st.val.get("_%d" % f[2])
                 if not (vi and vi[0] == "int"):
@@ -1590,16 +1605,33 @@ class FnRun(FnAnalysis):
         return self.sites
 
     # ---------------------------------------------------------------- guard helpers
+    def _returns_bool(self):
+        return (self.locals[0].get("ty") or "") == "bool"
+
     def note_return_value(self, st, rv, partial):
-        """`_0 = Ok(..)` in a function returning Result: record what the state guarantees about the parameters at that
-        point.  The meet over all such points is the function's *ensures* summary (`check_len(found, expected)?`,
-        `need(buf, 6)?`): a caller may assume it on the Ok / Continue edge of the result.  Any other way of producing
-        the return value (a moved local, another call) makes the summary empty."""
+        """`_0 = Ok(..)` in a function returning Result -- or any `_0 = <not the constant false>` in a function returning
+        bool: record what the state guarantees about the parameters at that point.  The meet over all such points is
+        the function's *ensures* summary (`check_len(found, expected)?`, `need(buf, 6)?`, `if self.at_continue() {`): a
+        caller may assume it on the Ok / Continue edge of the result, resp. on the true edge.  Any other way of
+        producing a Result (a moved local, another call) makes the summary empty."""
+        if self._returns_bool():
+            if partial:
+                self.ens_unknown = True
+                return
+            if rv.get("k") == "Use" and "const" in rv.get("a", {}) and rv["a"]["const"].get("bool") is False:
+                return
+            if rv.get("k") == "Use" and "const" in rv.get("a", {}) and rv["a"]["const"].get("int") == 0:
+                return
+            self.ok_points.append(self._state_facts(st))
+            return
         if partial or rv.get("k") != "Aggregate" or rv.get("variant") not in ("Ok", "Err"):
             self.ens_unknown = True
             return
         if rv.get("variant") == "Err":
             return
+        self.ok_points.append(self._state_facts(st))
+
+    def _state_facts(self, st):
         rel, cst = set(), {}
         ints = [i for i in self.ens_params if self.lclass(i) in INT_BOUNDS and self.lclass(i) != "bool"]
         vals = {}
@@ -1626,22 +1658,28 @@ class FnRun(FnAnalysis):
             for j, vj in vals.items():
                 if self.prove_le(st, vj, ln):
                     rel.add(("len_ge", i, j))
-        self.ok_points.append((rel, cst))
+        # byte buffers stored in fields behind a reference parameter (`self.stream`)
+        for i in self.ens_params:
+            pre = "F:_%d*" % i
+            for sid, v in st.sl.items():
+                if sid.startswith(pre) and v[0] > 0:
+                    cst[("field_len_ge_const", i, sid[len(pre):])] = v[0]
+        return (rel, cst)
 
     def ensures_summary(self):
         if getattr(self, "ens_unknown", True) or not getattr(self, "ok_points", None):
             return None
-        if not (self.locals[0].get("ty") or "").startswith("core::result::Result<"):
+        if not ((self.locals[0].get("ty") or "").startswith("core::result::Result<") or self._returns_bool()):
             return None
         rel = set.intersection(*[p[0] for p in self.ok_points])
         cst = {}
         for k in set.intersection(*[set(p[1]) for p in self.ok_points]):
             vs = [p[1][k] for p in self.ok_points]
             cst[k] = max(vs) if k[0] == "le_const" else min(vs)
-        out = sorted(rel) + sorted((k[0], k[1], v) for k, v in cst.items())
+        out = sorted(rel) + sorted(tuple(k) + (v,) for k, v in cst.items())
         return tuple(out) or None
 
-    def guard_value(self, st, ens, args):
+    def guard_value(self, st, ens, args, as_bool=False):
         cmps = []
         for f in ens:
             def iv(i):
@@ -1662,7 +1700,12 @@ class FnRun(FnAnalysis):
                 cmps.append(("Ge", lv(f[1]), V_const(f[2])))
             elif f[0] == "len_ge" and lv(f[1]) and iv(f[2]):
                 cmps.append(("Ge", lv(f[1]), iv(f[2])))
-        return ("opt", "guard", tuple(cmps)) if cmps else None
+            elif f[0] == "field_len_ge_const" and f[1] - 1 < len(args) and args[f[1] - 1] and args[f[1] - 1][0] == "ref":
+                sid = self.slice_sid_of_loc(st, args[f[1] - 1][1] + f[2], "[u8]")
+                cmps.append(("Ge", self.len_val(st, sid), V_const(f[3])))
+        if not cmps:
+            return None
+        return ("bool", ("implies", ("and", tuple(cmps)))) if as_bool else ("opt", "guard", tuple(cmps))
 
     # ---------------------------------------------------------------- R-AMP
     def succs(self, bi):
@@ -1815,6 +1858,8 @@ class Program:
         self.param_ranges = {}     # private fn -> {param index: (lo, hi)} joined over all its call sites
         self.arg_obs = {}
         self.arg_rel_obs = {}
+        self.arg_field_obs = {}
+        self.param_fields = {}     # private fn -> {(param index, field path): minimum length at every call site}
         self.param_rel = {}        # private fn -> relations between its parameters that hold at every call site
         self.eligible = self._private_fns(facts)
         for name, ms in facts.mir.items():
@@ -1829,7 +1874,7 @@ class Program:
         free functions / inherent methods that are never used as a value.  Only for those is the join of the argument
         intervals over the analysed call sites a sound bound for the parameter."""
         out = set()
-        hir = [f.raw for f in getattr(facts, "fns", [])]
+        hir = [f.raw for f in list(getattr(facts, "fns", [])) + list(getattr(facts, "helper_fns", []))]
         for h in hir:
             vis = h.get("vis") or ""
             if h.get("dk") in ("Fn", "AssocFn") and vis.startswith("Restricted(") and "DefId(0:0 " not in vis:
